@@ -174,6 +174,14 @@ class Parameter:
 
     def adjust_sigma(self, ratio: float):
         self.sigma *= ratio
+        if self.bounded:
+            # a proposal much wider than the allowed interval is, once folded into it,
+            # a uniform draw from the interval: widening it further only costs the fold
+            # its accuracy (beyond 1e16 widths every proposal is folded onto one point),
+            # and a broad posterior would otherwise widen it without end
+            lower = max(self.lower, 0.0) if self._non_negative else self.lower
+            if isfinite(self.upper - lower):
+                self.sigma = min(self.sigma, 10.0 * (self.upper - lower))
         self.sigma_values.append(copy(self.sigma))
         self.sigma_checks.append(len(self.samples))
         self.avg = 0
